@@ -89,4 +89,35 @@ theorem sProgT2_timers : sProgT2.timers.map (fun t => (t.id, t.deadline, t.calle
 theorem sProgT2_inv : sProgT2.d.invs.map (fun v => (v.id, v.callId, v.canceled, v.timer)) =
     [(⟨1, 1⟩, ⟨2, 8⟩, false, some 2)] := by decide +kernel
 
+/-! ### a shared registration, a progressive call, and the serving callee unregisters -/
+
+/-- sessions 1 and 3 share "s" (round robin): registration 2 -/
+def sShared : DState :=
+  (syncRegister (syncRegister sReg 1 2 "s" "" InvokeRoundRobin false false false).st 3 1 "s" "" InvokeRoundRobin
+    false false false).st
+/-- session 2's progressive call (request 9) to "s" is routed to session 1 -/
+def sSharedCall : DState := (syncCall env sShared 2 9 [(OptProgress, .bool true)] "s" [] [] 0).st
+/-- session 1 unregisters registration 2, which lives on with session 3; the call is still pending at session 1 -/
+def sSharedUnreg : DState := (syncUnregister sSharedCall 1 3 2).st
+
+theorem sShared_reach : Reachable sShared :=
+  .step (.step sReg_reach (.register 1 2 "s" "" InvokeRoundRobin false false false (by decide)))
+    (.register 3 1 "s" "" InvokeRoundRobin false false false (by decide))
+theorem sSharedCall_reach : Reachable sSharedCall := .step sShared_reach (.call env 2 9 [(OptProgress, .bool true)] "s" [] [] 0)
+theorem sSharedUnreg_reach : Reachable sSharedUnreg := .step sSharedCall_reach (.unregister 1 3 2)
+
+theorem sSharedUnreg_regs : sSharedUnreg.d.regs.map (fun r => (r.id, r.callees)) = [(1, [1]), (2, [3])] := by decide +kernel
+theorem sSharedUnreg_inv : sSharedUnreg.d.invs.map (fun v => (v.id, v.callId, v.callee, v.regId)) =
+    [(⟨1, 1⟩, ⟨2, 9⟩, 1, 2)] := by decide +kernel
+
+/-! ### a later chunk naming another procedure -/
+
+/-- session 3 additionally registered "q" (registration 2) -/
+def sReg2 : DState := (syncRegister sReg 3 2 "q" "" "" false false false).st
+/-- session 2's progressive call (request 7) to "p" is pending at session 1 -/
+def sProg2 : DState := (syncCall env sReg2 2 7 [(OptProgress, .bool true)] "p" [] [] 0).st
+
+theorem sReg2_reach : Reachable sReg2 := .step sReg_reach (.register 3 2 "q" "" "" false false false (by decide))
+theorem sProg2_reach : Reachable sProg2 := .step sReg2_reach (.call env 2 7 [(OptProgress, .bool true)] "p" [] [] 0)
+
 end Nexus.L2.Ex
